@@ -114,15 +114,19 @@ fn stamp_value(src_meta: &std::fs::Metadata) -> Option<String> {
     // v2: sidecars store low-cardinality string columns DICTIONARY-encoded
     // (see build_sidecar) — the version prefix retires every v1 sidecar so
     // mixed formats can never be served.
+    // v3: the modification time is stamped at full (nanosecond) resolution.
+    // v2 kept whole seconds, so a source rewritten within the same second
+    // to the same length kept a "fresh" sidecar of the OLD rows.
+    let mtime = src_meta
+        .modified()
+        .ok()?
+        .duration_since(std::time::UNIX_EPOCH)
+        .ok()?;
     Some(format!(
-        "v2:{}:{}",
+        "v3:{}:{}.{:09}",
         src_meta.len(),
-        src_meta
-            .modified()
-            .ok()?
-            .duration_since(std::time::UNIX_EPOCH)
-            .ok()?
-            .as_secs()
+        mtime.as_secs(),
+        mtime.subsec_nanos()
     ))
 }
 
